@@ -170,7 +170,7 @@ var pureExternPrefixes = []string{
 	"fmt.Sprint", "fmt.Print", "fmt.Fprint", "strings.", "strconv.", "(*encoding/base64.Encoding).EncodeToString",
 	"encoding/hex.EncodeToString", "time.", "(time.Time).", "(time.Duration).", "(*time.Timer).", "unicode.", "unicode/utf8.",
 	"(*strings.Builder).", "(*container/list.List).", "(*container/list.Element).", "math.", "errors.Is", "errors.As", "errors.Unwrap", "os.Getenv", "runtime.", "(*sync.Once).",
-	"context.With", "context.Background", "context.TODO", "bytes.Equal", "bytes.Compare", "crypto/sha256.Sum256", "crypto/sha512.", "(*google.golang.org/protobuf/types/known/timestamppb.Timestamp).", "google.golang.org/protobuf/types/known/timestamppb.", "(*sync/atomic.", "sync/atomic.",
+	"github.com/kilic/bls12-381.", "(*github.com/kilic/bls12-381.", "context.With", "context.Background", "context.TODO", "bytes.Equal", "bytes.Compare", "crypto/sha256.Sum256", "crypto/sha512.", "(*google.golang.org/protobuf/types/known/timestamppb.Timestamp).", "google.golang.org/protobuf/types/known/timestamppb.", "(*sync/atomic.", "sync/atomic.",
 }
 
 func findIfaceExtern(t types.Type, m *types.Func) ifaceExternFn {
